@@ -421,9 +421,11 @@ func shrinkStreams(plan any) []any {
 func init() {
 	Register("C07", &Scenario{
 		Name: "streams",
-		Owns: []string{"C07"},
-		New:  func() any { return &confPlan{} },
-		Gen:  genStreamsPlan,
+		// the small whip-stream scenario has weight 1
+		Weight: 6,
+		Owns:   []string{"C07"},
+		New:    func() any { return &confPlan{} },
+		Gen:    genStreamsPlan,
 		Cfg: func(tp *simrt.Tape, plan any) simrt.Config {
 			c := swarmCfg(tp, false)
 			c.PCTPoints = 6000
